@@ -185,3 +185,170 @@ Proof.
   - reflexivity.
   - simpl. discriminate.
 Qed.
+
+(* ================= deepening round: the frame's iterator stack (DeepBytecode_C03.v / DeepProofs_C03.v) ================= *)
+From C03 Require Import DeepBytecode_C03 DeepProofs_C03.
+
+(* Soundness of the verifier extended with frame.iterators: every execution of the extended abstract machine stays in the
+   annotation, on an instruction boundary, and is never stuck -- where stuck now also covers an opcode that needs an
+   iterator record (IteratorNext, IteratorValue, IteratorPop, ...) with an empty iterator stack. *)
+Theorem verify2_sound : forall cb, verify2 cb = true ->
+  forall pc d, reach2 cb pc d ->
+    In d (aget2 (infer2 cb) pc) /\ (exists i, find_instr cb pc = Some i) /\ asteps2 cb pc d <> None.
+Proof. exact verify2_sound_lemma. Qed.
+Check verify2_sound : forall cb, verify2 cb = true ->
+  forall pc d, reach2 cb pc d ->
+    In d (aget2 (infer2 cb) pc) /\ (exists i, find_instr cb pc = Some i) /\ asteps2 cb pc d <> None.
+Print Assumptions verify2_sound.
+
+(* Depths -- now including the length of the iterator stack -- agree wherever paths merge (per selector valuation; inside
+   the run-time "close every open iterator" loop of yield*'s return path the length itself is part of the key). *)
+Theorem verify2_merge_agreement : forall cb, verify2 cb = true ->
+  forall pc d1 d2, reach2 cb pc d1 -> reach2 cb pc d2 -> sel2 d1 = sel2 d2 ->
+  (in_drain cb pc = true -> d2_iter d1 = d2_iter d2) -> d1 = d2.
+Proof. exact verify2_merge_lemma. Qed.
+Check verify2_merge_agreement : forall cb, verify2 cb = true ->
+  forall pc d1 d2, reach2 cb pc d1 -> reach2 cb pc d2 -> sel2 d1 = sel2 d2 ->
+  (in_drain cb pc = true -> d2_iter d1 = d2_iter d2) -> d1 = d2.
+Print Assumptions verify2_merge_agreement.
+
+Theorem step_safe2 : forall cb, verify2 cb = true ->
+  forall pc d, reach2 cb pc d ->
+  exists i e, find_instr cb pc = Some i /\ operands_ok cb i = true /\ effect (i_op i) (i_args i) = Some e /\
+    (e_flow e <> FStop ->
+       e_pop e <= d_stk (d2_base d) /\ (e_env e = EPop -> d_env (d2_base d) <> 0) /\
+       (e_bind e = BPop -> d_bind (d2_base d) <> [])) /\
+    (needs_iter (i_op i) = true -> 0 < d2_iter d).
+Proof. exact step_safe2_lemma. Qed.
+Check step_safe2 : forall cb, verify2 cb = true ->
+  forall pc d, reach2 cb pc d ->
+  exists i e, find_instr cb pc = Some i /\ operands_ok cb i = true /\ effect (i_op i) (i_args i) = Some e /\
+    (e_flow e <> FStop ->
+       e_pop e <= d_stk (d2_base d) /\ (e_env e = EPop -> d_env (d2_base d) <> 0) /\
+       (e_bind e = BPop -> d_bind (d2_base d) <> [])) /\
+    (needs_iter (i_op i) = true -> 0 < d2_iter d).
+Print Assumptions step_safe2.
+
+(* No `.expect("iterator on the call frame must exist")`: an opcode that reads or pops the top iterator record is only
+   reachable with a non-empty iterator stack. *)
+Theorem iterator_never_underflows : forall cb, verify2 cb = true ->
+  forall pc d i, reach2 cb pc d -> find_instr cb pc = Some i -> needs_iter (i_op i) = true -> 0 < d2_iter d.
+Proof. exact iterator_present_lemma. Qed.
+Check iterator_never_underflows : forall cb, verify2 cb = true ->
+  forall pc d i, reach2 cb pc d -> find_instr cb pc = Some i -> needs_iter (i_op i) = true -> 0 < d2_iter d.
+Print Assumptions iterator_never_underflows.
+
+(* PARTIAL (blocks without the drain loop of yield*'s return path): the extended machine is a product over the machine of
+   Bytecode_C03.v, every state of that machine is the projection of an extended state, so verify2 alone gives all the
+   guarantees stated above for `verify`.  For blocks with a drain loop the extended machine resolves IteratorStackEmpty from
+   the abstract length and is strictly more precise than the base machine; the lifting is not proved for them. *)
+Theorem verify2_covers_base_partial : forall cb, no_drain cb = true -> verify2 cb = true ->
+  forall pc d, reach cb pc d -> (exists i, find_instr cb pc = Some i) /\ asteps cb pc d <> None.
+Proof. exact verify2_base_safe_lemma. Qed.
+Check verify2_covers_base_partial : forall cb, no_drain cb = true -> verify2 cb = true ->
+  forall pc d, reach cb pc d -> (exists i, find_instr cb pc = Some i) /\ asteps cb pc d <> None.
+Print Assumptions verify2_covers_base_partial.
+
+(* function f(it, a){ for (const x of it) { a = x; } return a } *)
+Definition ex_forof_code : list instr := [
+    mkInstr 0 9 Op_GetArgument [AIdx 0; AReg 1];
+    mkInstr 9 18 Op_Move [AReg 2; AReg 1];
+    mkInstr 18 27 Op_GetArgument [AIdx 1; AReg 1];
+    mkInstr 27 36 Op_Move [AReg 3; AReg 1];
+    mkInstr 36 45 Op_Move [AReg 1; AReg 2];
+    mkInstr 45 50 Op_GetIterator [AReg 1];
+    mkInstr 50 51 Op_IncrementLoopIteration [];
+    mkInstr 51 52 Op_IteratorNext [];
+    mkInstr 52 57 Op_IteratorDone [AReg 1];
+    mkInstr 57 66 Op_JumpIfTrue [AAddr 146; AReg 1];
+    mkInstr 66 71 Op_IteratorValue [AReg 1];
+    mkInstr 71 80 Op_Move [AReg 4; AReg 1];
+    mkInstr 80 89 Op_Move [AReg 3; AReg 4];
+    mkInstr 89 94 Op_Jump [AAddr 141];
+    mkInstr 94 99 Op_Exception [AReg 4];
+    mkInstr 99 108 Op_IteratorReturn [AReg 5; AReg 6];
+    mkInstr 108 117 Op_JumpIfFalse [AAddr 136; AReg 6];
+    mkInstr 117 122 Op_IsObject [AReg 5];
+    mkInstr 122 131 Op_JumpIfTrue [AAddr 136; AReg 5];
+    mkInstr 131 136 Op_ThrowNewTypeError [AIdx 0];
+    mkInstr 136 141 Op_Throw [AReg 4];
+    mkInstr 141 146 Op_Jump [AAddr 50];
+    mkInstr 146 155 Op_IteratorReturn [AReg 4; AReg 5];
+    mkInstr 155 164 Op_JumpIfFalse [AAddr 183; AReg 5];
+    mkInstr 164 169 Op_IsObject [AReg 4];
+    mkInstr 169 178 Op_JumpIfTrue [AAddr 183; AReg 4];
+    mkInstr 178 183 Op_ThrowNewTypeError [AIdx 0];
+    mkInstr 183 188 Op_PushFromRegister [AReg 3];
+    mkInstr 188 193 Op_PopIntoRegister [AReg 4];
+    mkInstr 193 198 Op_SetAccumulator [AReg 4];
+    mkInstr 198 199 Op_CheckReturn [];
+    mkInstr 199 200 Op_Return [];
+    mkInstr 200 201 Op_CheckReturn [];
+    mkInstr 201 202 Op_Return []].
+Definition ex_forof : codeblock := mkCB 7 0 202 (build_code ex_forof_code) [CStr] 0 0 [mkHandler 71 94 0; mkHandler 99 136 0] (jump_regs ex_forof_code).
+
+
+Example ex_forof_verifies : verify2 ex_forof = true.
+Proof. vm_compute. reflexivity. Qed.
+
+(* for (var x of [7,8]) { L: { for (var v of [1]) { break L; } } }   (known finding C01-label-jump-through-nested-iterator-loops):
+   the labelled break leaves the inner for-of without closing its record *)
+Definition ex_labelled_break_code : list instr := [
+    mkInstr 0 5 Op_StoreNewArray [AReg 1];
+    mkInstr 5 11 Op_StoreInt8 [AReg 2; AInt (7)%Z];
+    mkInstr 11 20 Op_PushValueToArray [AReg 2; AReg 1];
+    mkInstr 20 26 Op_StoreInt8 [AReg 2; AInt (8)%Z];
+    mkInstr 26 35 Op_PushValueToArray [AReg 2; AReg 1];
+    mkInstr 35 40 Op_GetIterator [AReg 1];
+    mkInstr 40 41 Op_IncrementLoopIteration [];
+    mkInstr 41 42 Op_IteratorNext [];
+    mkInstr 42 47 Op_IteratorDone [AReg 1];
+    mkInstr 47 56 Op_JumpIfTrue [AAddr 280; AReg 1];
+    mkInstr 56 61 Op_IteratorValue [AReg 1];
+    mkInstr 61 70 Op_DefInitVar [AReg 1; AIdx 0];
+    mkInstr 70 75 Op_StoreNewArray [AReg 1];
+    mkInstr 75 80 Op_StoreOne [AReg 2];
+    mkInstr 80 89 Op_PushValueToArray [AReg 2; AReg 1];
+    mkInstr 89 94 Op_GetIterator [AReg 1];
+    mkInstr 94 95 Op_IncrementLoopIteration [];
+    mkInstr 95 96 Op_IteratorNext [];
+    mkInstr 96 101 Op_IteratorDone [AReg 1];
+    mkInstr 101 110 Op_JumpIfTrue [AAddr 186; AReg 1];
+    mkInstr 110 115 Op_IteratorValue [AReg 1];
+    mkInstr 115 124 Op_DefInitVar [AReg 1; AIdx 1];
+    mkInstr 124 129 Op_Jump [AAddr 223];
+    mkInstr 129 134 Op_Jump [AAddr 181];
+    mkInstr 134 139 Op_Exception [AReg 1];
+    mkInstr 139 148 Op_IteratorReturn [AReg 2; AReg 3];
+    mkInstr 148 157 Op_JumpIfFalse [AAddr 176; AReg 3];
+    mkInstr 157 162 Op_IsObject [AReg 2];
+    mkInstr 162 171 Op_JumpIfTrue [AAddr 176; AReg 2];
+    mkInstr 171 176 Op_ThrowNewTypeError [AIdx 2];
+    mkInstr 176 181 Op_Throw [AReg 1];
+    mkInstr 181 186 Op_Jump [AAddr 94];
+    mkInstr 186 195 Op_IteratorReturn [AReg 1; AReg 2];
+    mkInstr 195 204 Op_JumpIfFalse [AAddr 223; AReg 2];
+    mkInstr 204 209 Op_IsObject [AReg 1];
+    mkInstr 209 218 Op_JumpIfTrue [AAddr 223; AReg 1];
+    mkInstr 218 223 Op_ThrowNewTypeError [AIdx 2];
+    mkInstr 223 228 Op_Jump [AAddr 275];
+    mkInstr 228 233 Op_Exception [AReg 1];
+    mkInstr 233 242 Op_IteratorReturn [AReg 2; AReg 3];
+    mkInstr 242 251 Op_JumpIfFalse [AAddr 270; AReg 3];
+    mkInstr 251 256 Op_IsObject [AReg 2];
+    mkInstr 256 265 Op_JumpIfTrue [AAddr 270; AReg 2];
+    mkInstr 265 270 Op_ThrowNewTypeError [AIdx 2];
+    mkInstr 270 275 Op_Throw [AReg 1];
+    mkInstr 275 280 Op_Jump [AAddr 40];
+    mkInstr 280 289 Op_IteratorReturn [AReg 1; AReg 2];
+    mkInstr 289 298 Op_JumpIfFalse [AAddr 317; AReg 2];
+    mkInstr 298 303 Op_IsObject [AReg 1];
+    mkInstr 303 312 Op_JumpIfTrue [AAddr 317; AReg 1];
+    mkInstr 312 317 Op_ThrowNewTypeError [AIdx 2];
+    mkInstr 317 318 Op_CheckReturn [];
+    mkInstr 318 319 Op_Return []].
+Definition ex_labelled_break : codeblock := mkCB 4 0 319 (build_code ex_labelled_break_code) [CStr; CStr; CStr] 2 0 [mkHandler 61 228 0; mkHandler 115 134 0; mkHandler 139 176 0; mkHandler 233 270 0] (jump_regs ex_labelled_break_code).
+
+
+Example ex_labelled_break_rejected : verify2 ex_labelled_break = false.
+Proof. vm_compute. reflexivity. Qed.
